@@ -53,12 +53,26 @@ func NewLoader(dir string) (*Loader, error) {
 // Load writes file (if not empty) to the loader's directory, replaces the process environment by
 // env and calls the real config.NewConfiguration.
 func (l *Loader) Load(prefix, file string, env Env) (res LoadResult) {
+	return l.load(prefix, file, env, false)
+}
+
+// LoadLookup is Load with the file not named to the loader but placed where its lookup finds it
+// (heimdall.yaml in the working directory).
+func (l *Loader) LoadLookup(prefix, file string, env Env) (res LoadResult) {
+	return l.load(prefix, file, env, true)
+}
+
+func (l *Loader) load(prefix, file string, env Env, lookup bool) (res LoadResult) {
 	path := ""
 	res.SchemaOK = true
 
 	if file != "" {
 		l.n++
 		path = filepath.Join(l.Dir, fmt.Sprintf("conf-%d.yaml", l.n))
+
+		if lookup {
+			path = filepath.Join(l.Dir, "cwd", "heimdall.yaml")
+		}
 
 		if err := os.WriteFile(path, []byte(file), 0o600); err != nil {
 			res.Err = err
@@ -83,6 +97,10 @@ func (l *Loader) Load(prefix, file string, env Env) (res LoadResult) {
 
 	if path != "" {
 		res.SchemaOK = config.ValidateConfig(path) == nil
+	}
+
+	if lookup {
+		path = ""
 	}
 
 	res.Conf, res.Err = config.NewConfiguration(config.EnvVarPrefix(prefix), config.ConfigurationPath(path))
